@@ -272,8 +272,24 @@ def run_case(case):
             mj = shared_cp_first.get('mssdc_jac')
             shared_cp_first['mssdc_jac'] = False
             first = controller_nonMPI(1, shared_cp_first, d_first)
-            P1 = first.MS[0].levels[0].prob
-            first.run(u_init(first), t0, t0 + 2.5 * dt)
+            # the adaptive run of the first controller is only there to make it use its hooks: bound it by blocks, not by time
+            orig_rb_ = first.restart_block
+            cnt_ = dict(n=0)
+
+            class _Enough(Exception):
+                pass
+
+            def rb_(active_slots, time, u0_):
+                cnt_['n'] += 1
+                if cnt_['n'] > 12:
+                    raise _Enough()
+                return orig_rb_(active_slots, time, u0_)
+
+            first.restart_block = rb_
+            try:
+                first.run(u_init(first), t0, t0 + 2.5 * dt)
+            except _Enough:
+                pass
             shared_cp['mssdc_jac'] = mj
             c8 = controller_nonMPI(procs, shared_cp, description_for(case))
             same(base, execute(c8, u_init(c8), t0, Tend), 'controllers-sharing-a-parameter-dictionary')
